@@ -111,9 +111,10 @@ def main(tier):
     else:
         cfgs = [(4, N, 5, b, 3, c) for N in (8, 9, 11, 12, 16) for b in ((0,), (1,), (0, 1), (1, 0)) if max(b) * 5 + 4 <= N for c in (0, 1)]
         cfgs += [(3, 12, 4, (0, 2), 3, 0), (3, 12, 4, (2, 0, 1), 2, 0), (4, 15, 5, (2, 0), 3, 1), (5, 17, 6, (0, 2), 2, 0)]
+        cfgs += [(4, 24, 5, (1, 0), 3, 0), (4, 24, 0, (0,), 3, 400), (4, 32, 5, (0, 1), 2, 0), (6, 48, 7, (2, 0), 2, 1), (4, 50, 5, (0,), 2, 0), (4, 8, 0, (0,), 4, 0), (3, 12, 4, (0, 2), 4, 1)]      # lengths whose c2r plan destroys its input, a short impedance table, histories of length 4
     jobs = [(job_history, c) for c in cfgs]
     chk.bounds = {'configurations (n, N, spacing, bucket numbers, history length, cutoff on)': cfgs, 'histories': 'every sequence of wakePotential / padBunchProfiles / updateCSR (with the configured and with the other cutoff setting) up to the stated length, each with its own arbitrary profile, followed by each of the three queries',
-                  'transform lengths': 'powers of two, composite and prime N up to 17'}
+                  'transform lengths': 'powers of two, composite and prime N up to 17, plus 24, 32, 48, 50 (c2r plans that use their input as scratch space)'}
     chk.assumptions = ['fftwf_execute is an uninterpreted function of its entire input buffer (so any stale cell changes the result term); r2c writes cells 0..N/2 of its output, c2r reads cells 0..N/2 and leaves its input unchanged',
                        'that c2r input-preservation and "planning leaves the zero-initialised buffers zero" are calibrated natively for every configuration when the snapshot is taken; otherwise the check is inconclusive',
                        'floats as reals (bit-identity follows from term identity: identical expression trees evaluate identically)', 'OpenCL/clFFT path outside the claim']
